@@ -25,7 +25,11 @@ TRUSTED = ["harness/h_C10.cpp (builds the rtosc_arg_val_t array, calls rtosc_pri
            "rtosc_count_printed_arg_vals, rtosc_scan_arg_vals, rtosc_arg_vals_eq)",
            "the OCaml driver's libc-backed oracle for the value of a *decimal* floating point literal "
            "(dead in lossless mode: the value is overwritten by the exact one)"]
-ASSUMPTIONS = ["TZ=UTC; glibc printf/sscanf (its %a prints the shortest exact hex form)",
+ASSUMPTIONS = ["TZ=UTC (the harness sets it); glibc printf/sscanf (its %a prints the shortest exact hex form); "
+               "localtime()/mktime() of libc = TimeFmt.date_of_secs/secs_of_date (compared on every run: stream cal and "
+               "every printed/scanned time tag)",
+               "time tags: seconds 0 .. 2^32-1, fraction 0 or with at most 24 significant bits (the float it is printed through); "
+               "other fractions are rounded by the code (observation O1 in notes/C10.md)",
                "floats and doubles finite; chars and string bytes in 1..126; print options within the "
                "quantifier (line length 10..120, precision 0..9)"]
 
@@ -228,6 +232,50 @@ def g_range_after_array(rng):
     run = ["%s:%d" % (k, x + d * j) for j in range(rng.randint(5, 7))]
     return ["a:%d:%d" % (ord(k), len(arr))] + arr + run
 
+def g_mixed(rng):
+    """arrays among other values (C10_roundtrip_any_partial): plain arrays, five or more equal arrays in a row
+    (printed "Nx[...]", also "Nx[]"), and a run directly after an array whose last element is the run's
+    first value / another value of the run's type / a value of another type / missing (empty array)"""
+    out = []
+    for _ in range(rng.randint(1, 4)):
+        q = rng.random()
+        if q < 0.3:
+            a = g_array(rng) if rng.random() < 0.8 else ["a:32:0"]
+            out += a * rng.choice([1, 2, 4, 5, 5, 6, 7])
+        elif q < 0.75:
+            k = rng.choice("ihc")
+            lo, hi = (48, 100) if k == "c" else (-60, 60)
+            b = rng.randint(lo, hi)
+            d = rng.choice([1, -1, 1, 2, 0])
+            run = ["%s:%d" % (k, b + j * d) for j in range(rng.choice([4, 5, 6, 7]))]
+            r = rng.random()
+            if r < 0.35:
+                last = ["%s:%d" % (k, b)]                       # equals the run's first value
+            elif r < 0.6:
+                # same type, another value - and not the one the run would continue from (b - d): the
+                # printer must write the run's second value, "a b ... c" read with the step b - a is another run
+                last = ["%s:%d" % (k, b + rng.choice([3, 5, -4, 7]))]
+            elif r < 0.8:
+                k2 = rng.choice([x for x in "ihcT" if x != k])
+                last = [g_scalar(rng, k2)]
+            else:
+                last = []
+            pre = []
+            if last and rng.random() < 0.6:
+                k0 = last[0][0]
+                if k0 in "ihc":
+                    pre = g_run(rng, k0, rng.choice([1, 2, 5, 6]))
+                    pre = [v for v in pre if v[0] == k0]
+            arr = pre + last
+            if arr and rng.random() < 0.35:
+                out += arr + run                 # the same at top level: the value before the run is no array element
+            else:
+                hdr = ["a:%d:%d" % (ord(arr[-1][0]) if arr else 32, len(arr))]
+                out += hdr + arr + run
+        else:
+            out.append(g_scalar(rng, rng.choice("ihcTNsf")))
+    return [v for v in out if "2e2e2e" not in v]
+
 def gen_struct(rng, tier, dist, n):
     """lists with runs around the compression threshold, arrays, time tags, whole messages"""
     out = []
@@ -244,6 +292,8 @@ def gen_struct(rng, tier, dist, n):
             vals = g_run_at_end(rng); parts = 0; compress = 1; bump("run-at-end")
         elif rng.random() < 0.01:
             vals = g_range_after_array(rng); parts = 0; compress = 1; bump("run-after-array-with-run")
+        elif rng.random() < 0.08:
+            vals = g_mixed(rng); parts = rng.choice([0, 0, 1]); compress = rng.choice([1, 1, 1, 0]); bump("arrays-among-values")
         for _p in range(parts):
             q = rng.random()
             if q < 0.35:
@@ -259,26 +309,89 @@ def gen_struct(rng, tier, dist, n):
             else:
                 vals.append(g_scalar(rng, rng.choice(SCALAR_KINDS))); bump("scalar")
         if compress:
-            # a run that mixes 0.0 and -0.0 is compressed to its first element
-            # (class signed-zero-run, see notes/C10.md): not generated
-            vals = [("f:00000000" if v == "f:80000000" else
-                     "d:0000000000000000" if v == "d:8000000000000000" else v) for v in vals]
+            # a run that mixes 0.0 and -0.0 is compressed to its first element (class signed-zero-run,
+            # see notes/C10.md): not generated.  A list with only one of the two zeroes of a type is
+            # inside the theorems (nozmix) and stays as it is - in particular lone -0.0 values.
+            if "f:00000000" in vals and "f:80000000" in vals:
+                z = rng.choice(["f:00000000", "f:80000000"])
+                vals = [(z if v in ("f:00000000", "f:80000000") else v) for v in vals]
+            if "d:0000000000000000" in vals and "d:8000000000000000" in vals:
+                z = rng.choice(["d:0000000000000000", "d:8000000000000000"])
+                vals = [(z if v in ("d:0000000000000000", "d:8000000000000000") else v) for v in vals]
+            if any(v in ("f:80000000", "d:8000000000000000") for v in vals):
+                bump("negative-zero-with-compression")
         bump("compress=%d" % compress)
+        if rng.random() < 0.01:
+            vals = []; bump("empty-message-or-list")
         if rng.random() < 0.25:
             addr = "/" + "/".join("".join(rng.choice("abcxyz019_#*?") for _ in range(rng.randint(1, 6)))
                                   for _ in range(rng.randint(1, 3)))
             bump("message")
-            kind = "xm" if any(v.startswith("t:") for v in vals) else "pm"
-            out.append("%s %d %d %d 1 %s %s" % (kind, ll, prec, compress, ";".join(vals), addr.encode().hex()))
+            kind = "pm"
+            out.append("%s %d %d %d 1 %s %s" % (kind, ll, prec, compress, ";".join(vals) if vals else "-", addr.encode().hex()))
         else:
-            # time tags (other than in the Spec oracle) are not in the Coq model
-            kind = "xp" if any(v.startswith("t:") for v in vals) else "pp"
+            kind = "pp"
             bump("stream:" + kind)
-            out.append("%s %d %d %d 1 %s" % (kind, ll, prec, compress, ";".join(vals)))
+            out.append("%s %d %d %d 1 %s" % (kind, ll, prec, compress, ";".join(vals) if vals else "-"))
+    return out
+
+# lengths of constant runs: every digit pattern of the "<n>x" the printer writes (a zero digit inside:
+# 10 20 30 100 101 105 110), the threshold region 5..9, and 11 12 99 112
+RUN_LENGTHS = [10, 20, 30, 100, 101, 105, 110, 5, 6, 7, 8, 9, 11, 12, 99, 112]
+
+def gen_runlengths(rng, dist, rounds):
+    """constant runs of every length of RUN_LENGTHS - at top level, inside an array and in a message -
+    in EVERY run (not left to chance)"""
+    out = []
+    for _ in range(rounds):
+        for m in RUN_LENGTHS:
+            for place in ("top", "array", "message"):
+                k = rng.choice("ihcTFNIsSfdrm")
+                v = g_scalar(rng, k)
+                if v in ("f:80000000", "d:8000000000000000") or (k in "sS" and "2e2e2e" in v):
+                    v = "i:64"
+                run = [v] * m
+                pre = [g_scalar(rng, rng.choice("iTNs"))] if rng.random() < 0.5 else []
+                post = [g_scalar(rng, rng.choice("ihTN"))] if rng.random() < 0.5 else []
+                pre = [x for x in pre if x != v and "2e2e2e" not in x]
+                post = [x for x in post if x != v]
+                ll = rng.choice([20, 40, 80, 120])
+                prec = rng.choice([0, 2, 6])
+                dist["runlength-%s" % place] = dist.get("runlength-%s" % place, 0) + 1
+                if place == "array":
+                    if k in "NI":
+                        run = ["i:7"] * m
+                    vals = pre + ["a:%d:%d" % (ord(run[0][0]), m)] + run + post
+                    out.append("pp %d %d 1 1 %s" % (ll, prec, ";".join(vals)))
+                elif place == "message":
+                    out.append("pm %d %d 1 1 %s %s" % (ll, prec, ";".join(pre + run + post), b"/part0/kit".hex()))
+                else:
+                    out.append("pp %d %d 1 1 %s" % (ll, prec, ";".join(pre + run + post)))
+    return out
+
+def gen_calendar(rng, dist, n):
+    """the calendar oracle pair (TimeFmt.date_of_secs / secs_of_date = localtime / mktime of libc, TZ=UTC):
+    boundaries of days, months, leap years (2000 is one, 2100 is not), 2^31, 2^32 - 1, random seconds"""
+    fixed = [0, 1, 59, 60, 3599, 3600, 86399, 86400, 86401,
+             951782400 - 1, 951782400, 951868800, 951868800 + 86400,       # 2000-02-28/29, 03-01
+             1078012800, 1078099200,                                        # 2004-02-29, 03-01
+             4107456000, 4107542400 - 1, 4107542400,                        # 2100-02-28, 03-01 (no leap day)
+             2147483647, 2147483648, 4294967295, 1479325446, 1500000000,
+             978307199, 978307200, 1230767999, 1230768000]
+    out = ["cal %d" % s for s in fixed]
+    for _ in range(n):
+        q = rng.random()
+        if q < 0.3:
+            out.append("cal %d" % (rng.randint(0, 49710) * 86400 + rng.choice([0, 1, 86399])))
+        else:
+            out.append("cal %d" % rng.getrandbits(32))
+    dist["calendar"] = dist.get("calendar", 0) + len(out)
     return out
 
 def gen(rng, tier, dist):
-    return gen_scalar(rng, tier, dist) + gen_struct(rng, tier, dist, 2500 if tier == "quick" else 120000)
+    return (gen_calendar(rng, dist, 150 if tier == "quick" else 20000)
+            + gen_runlengths(rng, dist, 1 if tier == "quick" else 20) + gen_scalar(rng, tier, dist)
+            + gen_struct(rng, tier, dist, 2500 if tier == "quick" else 120000))
 
 def gen_scalar(rng, tier, dist):
     n = 3000 if tier == "quick" else 150000
@@ -315,6 +428,8 @@ def fields(line):
 def canon(case, line):
     if case.startswith("x"):
         return "SKIP"
+    if case.startswith("cal "):
+        return line
     # the model does not compute rtosc_arg_vals_eq
     return " ".join(t for t in line.split(" ") if not t.startswith("EQ="))
 
@@ -373,19 +488,35 @@ def spec_check(case, impl):
     if impl.startswith("CRASH") or impl == "NOOUT" or impl == "BADCASE":
         return "crash: the implementation did not answer (%s)" % impl[:200]
     d = fields(impl)
+    if f[0] == "cal":
+        # the hypothesis of C10_timetag_...: mktime(localtime(s)) = s, fields in their ranges
+        y, mo, dd, h, mi, se = [int(x) for x in d["D"].split("-")]
+        if int(d["S"]) != int(f[1]):
+            return "calendar: mktime(localtime(%s)) = %s" % (f[1], d["S"])
+        if not (1970 <= y <= 2106 and 1 <= mo <= 12 and 1 <= dd <= 31 and 0 <= h < 24 and 0 <= mi < 60 and 0 <= se < 60):
+            return "calendar: localtime(%s) = %s" % (f[1], d["D"])
+        return None
     vals = [] if f[5] == "-" else f[5].split(";")
     text = b"" if d["P"] == "-" else bytes.fromhex(d["P"])
     if int(d["W"]) != len(text):
         return "length: printer returned %s, the text has %d bytes" % (d["W"], len(text))
     if not vals:
-        if int(d["C"]) != 0 and f[0] in ("pp", "xp"):
+        if int(d["C"]) != 0:
             return "count: empty list printed as %r counted as %s values" % (text, d["C"])
+        if f[0] in ("pm", "xm"):
+            # a message without arguments: "<address> "; the scanner reads the address and writes nothing
+            if d.get("A") != f[6]:
+                return "address: %r scanned back as %s" % (text, d.get("A"))
+            if int(d["N"]) != 0:
+                return "count: the scanner wrote %s values for the empty message %r" % (d["N"], text)
+            if int(d["R"]) != len(text):
+                return "consume: scanner read %s of %d bytes of %r" % (d["R"], len(text), text)
         return None
-    if f[0] in ("pm", "xm") and d.get("A") != f[6]:
-        return "address: %r scanned back as %s" % (text, d.get("A"))
     c = int(d["C"])
     if c <= 0:
         return "check: the syntax checker rejects the printed text %r (count %d)" % (text, c)
+    if f[0] in ("pm", "xm") and d.get("A") != f[6]:
+        return "address: %r scanned back as %s" % (text, d.get("A"))
     if int(d["N"]) != c:
         return "count: checker says %d values, scanner wrote %s" % (c, d["N"])
     if int(d["R"]) != len(text):
@@ -399,6 +530,8 @@ def spec_check(case, impl):
 
 def nontrivial(case, impl):
     f = case.split(" ")
+    if f[0] == "cal":
+        return False
     if f[5] == "-" or ";" not in f[5]:
         return False
     d = fields(impl)
@@ -407,36 +540,169 @@ def nontrivial(case, impl):
     text = bytes.fromhex(d["P"])
     return (b"\n" in text or b"\\" in text or b"-" in text or b"(" in text)
 
+def _mask_zero(v):
+    """the value with the sign of a floating-point zero dropped"""
+    if isinstance(v, tuple):
+        return tuple(_mask_zero(x) for x in v)
+    if v == "f:80000000":
+        return "f:00000000"
+    if v == "d:8000000000000000":
+        return "d:0000000000000000"
+    return v
+
+def _mixed_zero_run(vals):
+    """five or more consecutive floating-point zeroes of one type, of both signs"""
+    for zs in (("f:00000000", "f:80000000"), ("d:0000000000000000", "d:8000000000000000")):
+        j = 0
+        while j < len(vals):
+            k = j
+            while k < len(vals) and vals[k] in zs:
+                k += 1
+            if k - j >= 5 and len(set(vals[j:k])) == 2:
+                return True
+            j = max(k, j + 1)
+    return False
+
+def _delta_run_at(vals, j):
+    """vals[j:j+5] is a run the printer compresses to "b ... c": one of the types i h c, constant non-zero step"""
+    if j + 5 > len(vals):
+        return False
+    k = vals[j][:2]
+    if k not in ("i:", "h:", "c:") or any(v[:2] != k for v in vals[j:j + 5]):
+        return False
+    xs = [int(v[2:]) for v in vals[j:j + 5]]
+    d = xs[1] - xs[0]
+    return d != 0 and all(xs[i + 1] - xs[i] == d for i in range(4))
+
+def _slots_through_ellipsis_string(text):
+    """Walks the printed text value by value, counting the slots the syntax checker counts (a value 1,
+    the N of "NxV" 1, an array's bracket 1, a range's "... c" 2), up to and including the first string or
+    symbol that contains "...".  Returns (slots, rest of the text after that string) or None."""
+    import re
+    t = text.decode("latin-1")
+    p, n, slots, skip_value = 0, len(t), 0, False
+    def ws(p):
+        while p < n and t[p] in " \n\t":
+            p += 1
+        return p
+    while True:
+        p = ws(p)
+        if p >= n:
+            return None
+        c = t[p]
+        counted = 0 if skip_value else 1
+        skip_value = False
+        if c == '"':
+            content = ""
+            while True:
+                q = p + 1
+                while q < n and t[q] != '"':
+                    q += 2 if t[q] == "\\" else 1
+                if q >= n:
+                    return None
+                content += t[p + 1:q]
+                p = q + 1
+                m = re.match(r"\\\n *\"", t[p:])      # "...\<newline>    "..." : the string goes on
+                if not m:
+                    break
+                p += m.end() - 1
+            if p < n and t[p] == "S":
+                p += 1
+            slots += counted
+            if "..." in content:
+                return slots, t[p:]
+        elif c == "'":
+            p += 4 if t[p + 1] == "\\" else 3
+            slots += counted
+        elif c == "[":
+            p += 1; slots += counted
+        elif c == "]":
+            p += 1
+        elif t.startswith("...", p):
+            p += 3; slots += 2; skip_value = True
+        elif t.startswith("BLOB [", p) or t.startswith("MIDI [", p):
+            q = t.find("]", p)
+            if q < 0:
+                return None
+            p = q + 1; slots += counted
+        else:
+            m = re.match(r"[1-9][0-9]*x", t[p:])
+            if m and not skip_value:
+                p += m.end(); slots += 1          # the repetition's own slot; the value follows directly
+                skip_value = False
+                continue
+            q = p
+            while q < n and t[q] not in " \n\t]":
+                q += 1
+            word = t[p:q]
+            p = q
+            slots += counted
+            if re.fullmatch(r"\d{4}-\d\d-\d\d", word):        # a time tag: clock time and exact fraction belong to it
+                m = re.match(r"\s+\d\d:\d\d(:\d\d(\.\d+)?)?", t[p:])
+                if m:
+                    p += m.end()
+            q = ws(p)
+            if q < n and t[q] == "(":                          # the exact value of a float / a fraction
+                e = t.find(")", q)
+                if e < 0:
+                    return None
+                p = e + 1
+
 def classify(case, impl, failure):
+    """Known findings.  Each class demands the failure kind the finding produces and that the finding
+    alone explains the failure - another violation in the same case is not classified."""
+    import re
     f = case.split(" ")
+    if f[0] == "cal":
+        return None
     vals = f[5].split(";")
-    if f[3] != "0" and failure.startswith("values") and (
-            ("f:00000000" in vals and "f:80000000" in vals) or
-            ("d:0000000000000000" in vals and "d:8000000000000000" in vals)):
-        return "signed-zero-run"
-    if f[3] != "0":
-        # the side conditions of C10_roundtrip_any_partial (PrettyProofs/ListProofs goodc)
-        for v in vals:
-            if v[:2] in ("s:", "S:") and "2e2e2e" in v[2:] and bytes.fromhex(v[2:]).find(b"...") >= 0:
-                return "ellipsis-in-string-before-range"
+    d = fields(impl) if "=" in impl else {}
+    if f[3] != "0" and failure.startswith("values: ") and "scanned as" in failure and _mixed_zero_run(vals):
+        # signed-zero-run: a run of >= 5 zeroes of both signs; the scanned values differ from the
+        # originals in the sign of zeroes only, and rtosc_arg_vals_eq (==) holds
+        got = [] if d.get("V", "-") == "-" else d["V"].split(";")
+        if d.get("EQ") == "1" and [_mask_zero(v) for v in expand(got)] == [_mask_zero(v) for v in expand(vals)]:
+            return "signed-zero-run"
+    if f[3] != "0" and failure.startswith("check: ") and "P" in d and d["P"] != "-":
+        # ellipsis-in-string-before-range: a string or symbol containing "..." directly in front of a
+        # run printed as "b ... c"; the checker rejects exactly that range (count = -(slots before it + 1))
+        text = bytes.fromhex(d["P"])
+        for j, v in enumerate(vals):
+            if v[:2] in ("s:", "S:") and b"..." in (bytes.fromhex(v[2:]) if v[2:] != "-" else b""):
+                if not _delta_run_at(vals, j + 1):
+                    break
+                try:
+                    r = _slots_through_ellipsis_string(text)
+                except (IndexError, ValueError):
+                    r = None
+                if (r is not None and int(d["C"]) == -(r[0] + 1)
+                        and re.match(r"\s+\S+\s+\.\.\.\s", r[1])):
+                    return "ellipsis-in-string-before-range"
+                break
     return None
 
 TECHNIQUE = ("Coq proofs about a token-level model of the printer, the syntax checker and the scanner "
              "(structural induction over the value list, per-token lemmas) + differential "
              "correspondence against the real functions under ASan/UBSan")
-LEVEL_TEXT = ("Partial. Model: printer (all scalar types, range conversion with threshold 5, N x value and a b ... c "
-              "forms, arrays incl. nested ones, messages), checker and scanner (incl. ellipsis handling, arrays, messages); "
-              "time tags are not modelled. Proved (Properties_C10.v, 25 theorems): for EVERY option record (compression on or "
-              "off) and unbounded lists of int32/int64 over the full range, chars, true/false/nil/inf, strings and quoted "
-              "symbols, colours, MIDI, symbols printed bare, blobs, and - with the lossless option - every finite float and "
-              "double: returned length, checker count = slots written, whole text consumed, slots expand to the input "
-              "(C10_roundtrip_any_partial, C10_message_any_partial; the same for a list that is one array: "
-              "C10_array_roundtrip_partial). Side conditions = the classifier's predicates: +0.0 and -0.0 of one type do not "
-              "both occur (nozmix, signed-zero-run), no '.' in strings/symbols/chars (coarser than ellipsis-in-string-before-range). "
-              "The hexadecimal float text round-trips bit-exactly for every finite float/double (C10_hexfloat_roundtrip, "
-              "C10_float_tokens; no oracle). Arrays among other values: recogniser half only (C10_mixed_reads_partial, side "
-              "condition = no range tail directly after an array = class range-after-array). Range conversion: C10_range_expand "
-              "(step runs of i/h/c, constant runs of every scalar incl. floats).")
+LEVEL_TEXT = ("Partial. Model: printer (all scalar types incl. time tags, range conversion with threshold 5, N x value and a b ... c "
+              "forms, arrays incl. nested ones, messages), checker and scanner (incl. ellipsis handling, arrays, time tags, messages). "
+              "Proved (Properties_C10.v, 36 theorems): for EVERY option record (compression on or off) and unbounded lists of values "
+              "AND ARRAYS OF VALUES in any order (C10_roundtrip_any_partial, C10_message_any_partial over lists of TS v / TA type "
+              "elements; runs directly after arrays, five or more equal arrays printed Nx[...], empty arrays) - values = int32/int64 "
+              "over the full range, chars, true/false/nil/inf, strings and quoted symbols, colours, MIDI, symbols printed bare, blobs, "
+              "and with the lossless option every finite float and double: returned length, checker count = slots written, whole text "
+              "consumed, slots expand (also inside arrays) to the input; the printer model is total on that class (C10_print_any_total), so "
+              "the theorems speak about every such list. Side conditions = the classifier's predicates: +0.0 and -0.0 "
+              "of one type do not both occur (nozmix over all values, signed-zero-run), no two dots in a row in strings/symbols "
+              "(coarser than ellipsis-in-string-before-range, which needs three), homogeneous non-nested arrays. No condition on the "
+              "position of arrays and runs is left for printed text; for hand-written text C10_mixed_reads_partial excludes exactly a "
+              "range tail behind an array whose last value has the tail's type and differs from its first value (D25). The hexadecimal "
+              "float text round-trips bit-exactly (C10_hexfloat_roundtrip, C10_float_tokens; no oracle). Time tags: model compared "
+              "with the code on every run; proved about the model: the calendar pair round-trips for every 32-bit number of seconds "
+              "(C10_timetag_calendar, no hypothesis), the fraction survives its float when it has at most 24 significant bits "
+              "(C10_timetag_fraction), the value is rebuilt from the printed fields (C10_timetag_value_partial); the text-level "
+              "reading of a time tag is shown for examples by computation and tied, not proved in general. Range conversion: "
+              "C10_range_expand.")
 LEVEL_NOTE = ("Trusted: Coq kernel, extraction, OCaml driver (incl. its libc oracle for decimal float literals, dead in lossless "
               "mode), harness, generators. FloatFmt.v: fmt_f/fmt_a = glibc printf and sc_f/to_bits = glibc sscanf are tied by "
               "the correspondence run, not proved; given them the float round trip is a theorem. See notes/C10.md (stage 6).")
